@@ -61,9 +61,9 @@ def build(repo):
     # count `passed_chars` equals the position reached (one per character, one per label end), so a hit never exceeds the input.
     U.fn(H, 'lex_hostname', dict(result='r', props=P, ensures=['r matches Some(n) ==> n <= source@.len()'],
                                  proofs=[dict(at='body_start', kind='broadcast', text='broadcast use axiom_char_slice_bytes;')],
-                                 loops={1: dict(desugar='R10', invariant=['__s <= source@.len()', 'source@.len() * 8 <= usize::MAX'], invariant_except_break=['passed_chars == __s'], ensures=['passed_chars == source@.len() + 1'], decreases='source@.len() - __s'),
-                                        2: dict(iter_name='it', invariant=['__s <= __e <= source@.len()', 'label@ == source@.subrange(__s as int, __e as int)',
-                                                                           'passed_chars == __s + it.index@', 'source@.len() * 8 <= usize::MAX'])}))
+                                 loops={1: dict(desugar='R10', invariant=['source@.len() * 8 <= usize::MAX', '!__fin ==> passed_chars == __s', '__fin ==> passed_chars == source@.len() + 1']),
+                                        2: dict(iter_name='it', invariant=['__ls <= __e <= source@.len()', 'label@ == source@.subrange(__ls as int, __e as int)',
+                                                                           'passed_chars == __ls + it.index@', 'source@.len() * 8 <= usize::MAX'])}))
     # lex_email_address: the search for the last '@' (`iter().enumerate().rev().find(..)`) is desugared (R11); whether the local part
     # is acceptable (validate_local_part: tuple_windows / iterator code) is an arbitrary total bool here
     U.raw('#[verifier::external_body] fn validate_local_part(local_part: &[char]) -> bool { unimplemented!() }', name='assumed:validate_local_part')
